@@ -16,3 +16,13 @@ pub fn hashmap_get_mut<'a, K: Eq + Hash, V>(m: &'a mut HashMap<K, V>, k: &K) -> 
 {
     m.get_mut(k)
 }
+
+// N4 (hash map): `m.iter().filter(|(_, c)| P(c)).map(|(key, _)| key.clone()).collect()`.
+// Deliberately weak: the result is some vector of keys (nothing about which, nor their order).
+#[verifier::external_body]
+pub fn hashmap_keys_where<K: Eq + Hash + Clone, C, F: Fn(&C) -> bool>(m: &HashMap<K, C>, f: F) -> (r: Vec<K>)
+    requires
+        forall|k: K| m@.contains_key(k) ==> call_requires(f, (&m@[k],)),
+{
+    m.iter().filter(|kv| f(kv.1)).map(|kv| kv.0.clone()).collect()
+}
